@@ -43,7 +43,13 @@ def from_emission(j):
         if op["step"] == 1:
             out.append({"fn": "truncate_index", "x": X, "y": Y, "start": op["s"], "stop": op["e"]})
     elif k == "interp":
-        out.append({"fn": "interp", "x": X, "y": Y, "q": [R(Fraction(v, 2)) for v in op["q2"]], "left": NONE if op["left"] == NB else R(op["left"])})
+        q = [R(Fraction(v, 2)) for v in op["q2"]]
+        # non-integer values so that an integer-typed result buffer would show
+        Yh = [R(Fraction(2 * v + 1, 4)) for v in j["y"]]
+        out.append({"fn": "interp", "x": X, "y": Y, "q": q, "left": NONE if op["left"] == NB else R(op["left"])})
+        if all(r[1] == 1 for r in q):       # the same grid handed over with an integer dtype / as a list of ints
+            out.append({"fn": "interp", "x": X, "y": Yh, "q": q, "left": NONE if op["left"] == NB else R(Fraction(op["left"] * 2 + 1, 2)),
+                        "qcontainer": "int" if len(q) % 2 else "intlist", "xcontainer": "int" if all(r[1] == 1 for r in X) else "array"})
     elif k == "winterp":
         out.append({"fn": "winterp", "mode": "n", "x": X, "y": Y, "n": op["n"], "method": "linear"})
         for me in (("constant", "cubic", "spline") if len(X) >= 4 else ("constant",)):
@@ -140,7 +146,7 @@ def random_cases(family, rng, count):
 
 
 CASE_KEYS = ("fn", "x", "y", "r", "a", "b", "left", "right", "lr", "rr", "start", "stop", "step", "explicit_none", "q", "n", "mode",
-             "qcontainer", "explicit_method", "x0", "y0", "pre", "c", "normalized", "axis", "other", "lo", "hi", "op", "v", "container", "method", "m", "b")
+             "qcontainer", "xcontainer", "explicit_method", "x0", "y0", "pre", "c", "normalized", "axis", "other", "lo", "hi", "op", "v", "container", "method", "m", "b")
 
 
 def case_of_event(ev):
